@@ -1,11 +1,17 @@
 (* Properties/C11.v — radix output is the canonical numeral and round-trips with parsing.
    Model: Model/RadixOut.v (src/buint/radix.rs:450-607, src/bint/radix.rs:131-163).
-   Premises (facts about functions modelled and proved elsewhere, see Proofs/RadixOutDeps.v):
-   div_digit_spec (BUint::div_rem_digit, C03), is_negative_spec and unsigned_abs_spec (C07 / C01);
-   the round-trip corollaries additionally take C10's parse theorem as `parse_*_spec`. *)
+   The facts about functions modelled elsewhere that the development took as premises
+   (Proofs/RadixOutDeps.v: div_digit_spec — BUint::div_rem_digit, C03 —, is_negative_spec and
+   unsigned_abs_spec — C07 / C01) are discharged by the owners' theorems (Proofs/DischargeRadix.v):
+   no theorem below has such a premise.  The generic round-trip corollaries C11_round_trip_* hold for
+   ANY parser meeting `parse_*_spec`; the C11_round_trip_*_closed theorems instantiate them with the
+   real model parsers of property C10 (Model/Parse.v; Proofs/RoundTrip.v) and are unconditional. *)
 From Bnum Require Import Base Prim.
 From Bnum.Model Require Import Digit Core Shift AddSub Mul Div Bits RadixOut.
 From Bnum.Proofs Require Import RadixSpec RadixOutDeps RadixOut.
+From Bnum.Proofs Require Import DischargeRadix.
+From Bnum.Model Require Import Parse.
+From Bnum.Proofs Require Import RoundTrip.
 
 (* the specification determines the output: a value has exactly one canonical digit sequence *)
 Theorem C11_canonical_unique : forall r x a b,
@@ -16,10 +22,10 @@ Print Assumptions C11_canonical_unique.
 (* to_radix_le: every radix 2..=256, every dispatch path (byte copy, exact and inexact bit slicing,
    repeated division), all digit widths w >= 8, all digit counts: never out of fuel, never panics,
    digits < r, value = the integer, [0] for zero, no most-significant zero *)
-Theorem C11_to_radix_le_ok : div_digit_spec -> forall w n a r,
+Theorem C11_to_radix_le_ok : forall w n a r,
   8 <= w -> wf w n a -> 2 <= r <= 256 ->
   exists ds, U_to_radix_le w a r = Some (Ret ds) /\ canonical_le r (uval w a) ds.
-Proof. exact to_radix_le_ok. Qed.
+Proof. exact (to_radix_le_ok DischargeRadix.div_digit_spec_holds). Qed.
 Print Assumptions C11_to_radix_le_ok.
 
 (* power-of-two radices (2,4,8,...,256: bit slicing incl. to_inexact_bitwise_digits_le) need no premise *)
@@ -34,18 +40,18 @@ Theorem C11_to_radix_be_rev : forall w a r, U_to_radix_be w a r = oomap (@rev Z)
 Proof. exact to_radix_be_rev. Qed.
 Print Assumptions C11_to_radix_be_rev.
 
-Theorem C11_to_radix_be_ok : div_digit_spec -> forall w n a r,
+Theorem C11_to_radix_be_ok : forall w n a r,
   8 <= w -> wf w n a -> 2 <= r <= 256 ->
   exists ds, U_to_radix_be w a r = Some (Ret (rev ds)) /\ canonical_le r (uval w a) ds.
-Proof. exact to_radix_be_ok. Qed.
+Proof. exact (to_radix_be_ok DischargeRadix.div_digit_spec_holds). Qed.
 Print Assumptions C11_to_radix_be_ok.
 
 (* signed types print the two's complement bit pattern *)
-Theorem C11_I_to_radix_ok : div_digit_spec -> forall w n a r,
+Theorem C11_I_to_radix_ok : forall w n a r,
   8 <= w -> wf w n a -> 2 <= r <= 256 ->
   exists ds, I_to_radix_le w a r = Some (Ret ds) /\ I_to_radix_be w a r = Some (Ret (rev ds)) /\
              canonical_le r (sval w a mod Mod w n) ds.
-Proof. exact I_to_radix_le_ok. Qed.
+Proof. exact (I_to_radix_le_ok DischargeRadix.div_digit_spec_holds). Qed.
 Print Assumptions C11_I_to_radix_ok.
 
 (* strings: lowercase ASCII of the canonical digits, most significant first; '-' for negative values *)
@@ -54,19 +60,19 @@ Theorem C11_ascii_lower : forall d, 0 <= d < 36 ->
 Proof. exact ascii_lower_spec. Qed.
 Print Assumptions C11_ascii_lower.
 
-Theorem C11_U_to_str_radix_ok : div_digit_spec -> forall w n a r,
+Theorem C11_U_to_str_radix_ok : forall w n a r,
   8 <= w -> wf w n a -> 2 <= r <= 36 ->
   exists ds, canonical_le r (uval w a) ds /\
              U_to_str_radix w a r = Some (Ret (map ascii_lower (rev ds))).
-Proof. exact U_to_str_radix_ok. Qed.
+Proof. exact (U_to_str_radix_ok DischargeRadix.div_digit_spec_holds). Qed.
 Print Assumptions C11_U_to_str_radix_ok.
 
-Theorem C11_I_to_str_radix_ok : div_digit_spec -> is_negative_spec -> unsigned_abs_spec -> forall w n a r,
+Theorem C11_I_to_str_radix_ok : forall w n a r,
   8 <= w -> (0 < n)%nat -> wf w n a -> 2 <= r <= 36 ->
   exists ds, canonical_le r (Z.abs (sval w a)) ds /\
              I_to_str_radix w a r =
              Some (Ret ((if sval w a <? 0 then [45] else []) ++ map ascii_lower (rev ds))).
-Proof. exact I_to_str_radix_ok. Qed.
+Proof. exact (I_to_str_radix_ok DischargeRadix.div_digit_spec_holds DischargeRadix.is_negative_spec_holds DischargeRadix.unsigned_abs_spec_holds). Qed.
 Print Assumptions C11_I_to_str_radix_ok.
 
 (* panics exactly for an out-of-range radix (all w, all inputs, no premise) *)
@@ -85,34 +91,83 @@ Print Assumptions C11_I_to_str_radix_panic.
 
 (* round trip: parsing the output with the same radix returns the original value.  The parser is
    property C10; what the round trip needs of its theorem is the premise parse_*_spec *)
-Theorem C11_round_trip_le : forall (R : Type) (ok : list Z -> R), div_digit_spec ->
+Theorem C11_round_trip_le : forall (R : Type) (ok : list Z -> R),
   forall w n parse, parse_le_spec ok w n parse ->
   forall a r, 8 <= w -> wf w n a -> 2 <= r <= 256 ->
   exists ds, U_to_radix_le w a r = Some (Ret ds) /\ parse ds r = ok a.
-Proof. exact (@round_trip_le). Qed.
+Proof. exact (fun R ok => @round_trip_le R ok DischargeRadix.div_digit_spec_holds). Qed.
 Print Assumptions C11_round_trip_le.
 
-Theorem C11_round_trip_be : forall (R : Type) (ok : list Z -> R), div_digit_spec ->
+Theorem C11_round_trip_be : forall (R : Type) (ok : list Z -> R),
   forall w n parse, parse_be_spec ok w n parse ->
   forall a r, 8 <= w -> wf w n a -> 2 <= r <= 256 ->
   exists bs, U_to_radix_be w a r = Some (Ret bs) /\ parse bs r = ok a.
-Proof. exact (@round_trip_be). Qed.
+Proof. exact (fun R ok => @round_trip_be R ok DischargeRadix.div_digit_spec_holds). Qed.
 Print Assumptions C11_round_trip_be.
 
-Theorem C11_round_trip_str : forall (R : Type) (ok : list Z -> R), div_digit_spec ->
+Theorem C11_round_trip_str : forall (R : Type) (ok : list Z -> R),
   forall w n parse, parse_str_spec ok w n parse ->
   forall a r, 8 <= w -> wf w n a -> 2 <= r <= 36 ->
   exists s, U_to_str_radix w a r = Some (Ret s) /\ parse s r = ok a.
-Proof. exact (@round_trip_str). Qed.
+Proof. exact (fun R ok => @round_trip_str R ok DischargeRadix.div_digit_spec_holds). Qed.
 Print Assumptions C11_round_trip_str.
 
 Theorem C11_round_trip_istr : forall (R : Type) (ok : list Z -> R),
-  div_digit_spec -> is_negative_spec -> unsigned_abs_spec ->
   forall w n parse, parse_istr_spec ok w n parse ->
   forall a r, 8 <= w -> (0 < n)%nat -> wf w n a -> 2 <= r <= 36 ->
   exists s, I_to_str_radix w a r = Some (Ret s) /\ parse s r = ok a.
-Proof. exact (@round_trip_istr). Qed.
+Proof.
+  exact (fun R ok => @round_trip_istr R ok DischargeRadix.div_digit_spec_holds
+           DischargeRadix.is_negative_spec_holds DischargeRadix.unsigned_abs_spec_holds).
+Qed.
 Print Assumptions C11_round_trip_istr.
+
+(* ---- the round trip closed over the REAL parsers of property C10 (Model/Parse.v): the model parsers
+        meet the four parser specifications (C10's theorems, Proofs/RoundTrip.v) ... ---- *)
+Theorem C11_parse_le_real : forall dbg w n, 0 < w -> w mod 8 = 0 -> (0 < n)%nat ->
+  parse_le_spec (fun a => POk (Some a)) w n (U_from_radix_le dbg w n).
+Proof. exact parse_le_real. Qed.
+Print Assumptions C11_parse_le_real.
+Theorem C11_parse_be_real : forall dbg w n, 0 < w -> w mod 8 = 0 -> (0 < n)%nat ->
+  parse_be_spec (fun a => POk (Some a)) w n (U_from_radix_be dbg w n).
+Proof. exact parse_be_real. Qed.
+Print Assumptions C11_parse_be_real.
+Theorem C11_parse_str_real : forall dbg w n, 0 < w -> w mod 8 = 0 -> (0 < n)%nat ->
+  parse_str_spec (@POk (list Z)) w n (U_from_str_radix dbg w n).
+Proof. exact parse_str_real. Qed.
+Print Assumptions C11_parse_str_real.
+Theorem C11_parse_istr_real : forall dbg w n, 0 < w -> w mod 8 = 0 -> (0 < n)%nat ->
+  parse_istr_spec (@POk (list Z)) w n (I_from_str_radix dbg w n).
+Proof. exact parse_istr_real. Qed.
+Print Assumptions C11_parse_istr_real.
+
+(* ---- ... hence, with no premise: for both build modes, every digit width w that is a multiple of 8
+        (side conditions of both developments: 8 <= w for the output, w mod 8 = 0 for the parser),
+        every digit count n >= 1, every well-formed value and every radix in range, parsing the
+        output with the same radix returns the original value ---- *)
+Theorem C11_round_trip_le_closed : forall dbg w n a r,
+  8 <= w -> w mod 8 = 0 -> (0 < n)%nat -> wf w n a -> 2 <= r <= 256 ->
+  exists ds, U_to_radix_le w a r = Some (Ret ds) /\ U_from_radix_le dbg w n ds r = POk (Some a).
+Proof. exact round_trip_le_closed. Qed.
+Print Assumptions C11_round_trip_le_closed.
+
+Theorem C11_round_trip_be_closed : forall dbg w n a r,
+  8 <= w -> w mod 8 = 0 -> (0 < n)%nat -> wf w n a -> 2 <= r <= 256 ->
+  exists bs, U_to_radix_be w a r = Some (Ret bs) /\ U_from_radix_be dbg w n bs r = POk (Some a).
+Proof. exact round_trip_be_closed. Qed.
+Print Assumptions C11_round_trip_be_closed.
+
+Theorem C11_round_trip_str_closed : forall dbg w n a r,
+  8 <= w -> w mod 8 = 0 -> (0 < n)%nat -> wf w n a -> 2 <= r <= 36 ->
+  exists s, U_to_str_radix w a r = Some (Ret s) /\ U_from_str_radix dbg w n s r = POk a.
+Proof. exact round_trip_str_closed. Qed.
+Print Assumptions C11_round_trip_str_closed.
+
+Theorem C11_round_trip_istr_closed : forall dbg w n a r,
+  8 <= w -> w mod 8 = 0 -> (0 < n)%nat -> wf w n a -> 2 <= r <= 36 ->
+  exists s, I_to_str_radix w a r = Some (Ret s) /\ I_from_str_radix dbg w n s r = POk a.
+Proof. exact round_trip_istr_closed. Qed.
+Print Assumptions C11_round_trip_istr_closed.
 
 (* the hypotheses are satisfiable / the statements are not vacuous *)
 Example C11_ex_hyps : 8 <= 8 /\ wf 8 2 [255; 1] /\ 2 <= 10 <= 36 /\ (0 < 2)%nat.
@@ -133,3 +188,10 @@ Proof. exact parse_le_spec_sat. Qed.
 Example C11_ex_parse_str_spec : forall w n, 0 < w ->
   parse_str_spec (@Some (list Z)) w n (fun s r => Some (digits_of w n (horner_le r (rev (map unascii s))))).
 Proof. exact parse_str_spec_sat. Qed.
+(* the closed round trip on instances: "511" and "-2" parse back to the arrays they were printed from *)
+Example C11_ex_round_trip_str : U_from_str_radix true 8 2 [53; 49; 49] 10 = POk [255; 1].
+Proof. vm_compute. reflexivity. Qed.
+Example C11_ex_round_trip_istr : I_from_str_radix true 8 2 [45; 50] 16 = POk [254; 255].
+Proof. vm_compute. reflexivity. Qed.
+Example C11_ex_round_trip_le : U_from_radix_le true 8 2 [7; 7; 7] 8 = POk (Some [255; 1]).
+Proof. vm_compute. reflexivity. Qed.
